@@ -179,9 +179,17 @@ func Render(root *Elem, st Style) string {
 		sb.WriteString("<?xml version=\"1.0\" encoding=\"UTF-8\"?>\r\n")
 	case LayoutComments:
 		sb.WriteString("<!-- generated -->\n<?verif-pi some data?>\n")
+	case LayoutDoctype:
+		sb.WriteString("<?xml version='1.0' encoding='utf-8' standalone='yes'?>\n<!DOCTYPE " + root.Name + ">\n")
+	case LayoutBOM:
+		sb.WriteString("\ufeff<?xml version=\"1.0\" encoding=\"UTF-8\"?>\n")
 	}
 	w.elem(root, 0)
 	switch st.Layout {
+	case LayoutDoctype:
+		sb.WriteString("\n<!-- end -->\n<?verif-pi done?>\n  \n")
+	case LayoutBOM:
+		sb.WriteString("\n")
 	case LayoutComments:
 		sb.WriteString("\n<!-- end -->\n")
 	case LayoutIndent:
@@ -200,7 +208,7 @@ type writer struct {
 
 func (w *writer) nl(depth int) {
 	switch w.st.Layout {
-	case LayoutIndent, LayoutComments:
+	case LayoutIndent, LayoutComments, LayoutBOM:
 		w.sb.WriteByte('\n')
 		for i := 0; i < depth; i++ {
 			w.sb.WriteString("  ")
@@ -223,6 +231,10 @@ func (w *writer) elem(e *Elem, depth int) {
 	sb := w.sb
 	sb.WriteByte('<')
 	sb.WriteString(e.Name)
+	if depth == 0 && w.st.Layout == LayoutXMLNS {
+		// namespace declarations are not attributes of the vocabulary
+		sb.WriteString(` xmlns="http://openstreetmap.org/osm/0.6" xmlns:vx="urn:x-verif"`)
+	}
 	if n := len(e.Attrs); n > 0 {
 		ords := Orders(n)
 		ord := ords[w.st.Order%len(ords)]
@@ -303,7 +315,16 @@ func (w *writer) elem(e *Elem, depth int) {
 
 func runeStart(b byte) bool { return b&0xC0 != 0x80 }
 
+func numeric(style int) bool { return style == EntDec || style == EntHex || style == EntPadded }
+
 func ref(r rune, style int) string {
+	if style == EntPadded {
+		// leading zeros are legal in both forms, hexadecimal digits in either case
+		if r%2 == 0 {
+			return fmt.Sprintf("&#x%06x;", r)
+		}
+		return fmt.Sprintf("&#%07d;", r)
+	}
 	if style == EntHex {
 		return fmt.Sprintf("&#x%X;", r)
 	}
@@ -343,7 +364,7 @@ func EscapeAttr(s string, style int, q byte) string {
 			// never spell "]]>" literally outside a CDATA section
 			sb.WriteString(named(r))
 		case r == '<' || r == '&' || r == rune(q):
-			if style == EntDec || style == EntHex {
+			if numeric(style) {
 				sb.WriteString(ref(r, style))
 			} else {
 				sb.WriteString(named(r))
@@ -358,7 +379,7 @@ func EscapeAttr(s string, style int, q byte) string {
 			default:
 				sb.WriteRune(r)
 			}
-		case r > 0x7e && (style == EntDec || style == EntHex):
+		case r > 0x7e && numeric(style):
 			sb.WriteString(ref(r, style))
 		default:
 			sb.WriteRune(r)
@@ -418,12 +439,12 @@ func EscapeText(s string, style int) string {
 			switch style {
 			case EntNamed:
 				sb.WriteString(named(r))
-			case EntHex:
+			case EntHex, EntPadded:
 				sb.WriteString(ref(r, style))
 			default:
 				sb.WriteRune(r)
 			}
-		case r > 0x7e && (style == EntDec || style == EntHex):
+		case r > 0x7e && numeric(style):
 			sb.WriteString(ref(r, style))
 		default:
 			sb.WriteRune(r)
